@@ -71,6 +71,7 @@ type Result struct {
 	Choices    []uint32          `json:"choices,omitempty"`
 	Mismatch   bool              `json:"hash_mismatch,omitempty"`
 	Interleaved bool             `json:"interleaved,omitempty"`
+	Points     []string          `json:"points,omitempty"`
 }
 
 var traceN int
@@ -153,6 +154,7 @@ func runPlan(t *testing.T, sc *Scenario, plan *Plan, ch *simrt.Choices) (res Res
 	res.Violations = w.Viol
 	res.Probes = w.Probes
 	res.Faults = w.Net.Faults
+	res.Points = w.Points
 	return
 }
 
